@@ -809,6 +809,12 @@ func (it *tableIterator) Seek(key []byte) {
 		// idx is the first block where baseKey > key
 		// So we want idx-1, which is the last block where baseKey <= key
 		it.seekHelper(idx-1, key)
+		if it.err == io.EOF && idx < len(offsets) {
+			// Every entry of that block sorts below key (key falls into the gap
+			// between two blocks): the first entry at or after key is the first
+			// entry of the next block.
+			it.seekHelper(idx, key)
+		}
 	} else {
 		// Reverse: find last block that could contain key <= target
 		// We need to check from the end and find the last block where baseKey <= key
